@@ -83,6 +83,8 @@ class _Rewrite(ast.NodeTransformer):
                 raise NotExecutable("unbounded quantifier")
             if nm.startswith("__rng") or nm.startswith("spec_"):
                 raise NotExecutable("uninterpreted spec function")
+            if nm.startswith("disk_") or nm in ("closs", "mout", "filt", "rng_iter", "prime", "l1d", "_same_run_prefix"):
+                raise NotExecutable("specification-only vocabulary (ghost disk / abstract callee values)")
         return self.generic_visit(node)
 
 
@@ -104,7 +106,8 @@ def compile_expr(src, pre_names):
 def base_ns():
     return {"forall": _forall, "exists": _exists, "abs": abs, "len": len, "range": range, "isinstance": isinstance,
             "type": type, "np": np, "max": max, "min": min, "int": int, "float": float, "bool": bool,
-            "hint": lambda *_a: True, "ediv": lambda a, b: a // b}
+            "hint": lambda *_a: True, "ediv": lambda a, b: a // b,
+            "np_round": lambda x, p: float(np.round(x, int(p)))}
 
 
 class ContractViolation(Exception):
@@ -202,6 +205,33 @@ def check_call(reg, key, func, selfv, kwargs, stats=None):
             if not (v.shape == pre["__pre_" + k].shape and np.array_equal(v, pre["__pre_" + k], equal_nan=True)):
                 raise ContractViolation(f"modifies: {k} was written", "frame")
     return "returned", res
+
+
+def check_invariant(reg, cls_name, selfv):
+    """Evaluate the executable class-invariant clauses of cls_name (and its bases) on a real object."""
+    ns = base_ns()
+    for cname in _class_names():
+        ns[cname] = _class_names()[cname]
+    ns["self"] = selfv
+    for name, (params, body) in list(reg["specs"].items()):
+        try:
+            ns[name] = eval(compile_expr(f"lambda {','.join(params)}: ({body})", {"self"}), ns)  # noqa: S307
+        except NotExecutable:
+            pass
+    names = [cls_name] + [b.__name__ for b in type(selfv).__mro__[1:]]
+    for cn in names:
+        spec = reg["classes"].get(cn)
+        if spec is None:
+            continue
+        for inv in spec.invariant:
+            try:
+                ok = eval(compile_expr(getattr(inv, "clause", inv), {"self"}), ns)  # noqa: S307
+            except NotExecutable:
+                continue
+            except Exception as e:  # noqa: BLE001
+                raise ContractViolation(str(inv), "class-invariant", f"evaluation failed: {type(e).__name__}: {e}") from e
+            if not ok:
+                raise ContractViolation(str(inv), "class-invariant")
 
 
 _CLS = {}
